@@ -157,6 +157,25 @@ def run_item(item):
                 T3, *_ = env.trace(df3, params, functions)
                 res["runs"] += 1
                 monitor(T3, res, f"cent sweep {item['template']} at {item['date']}")
+        # wealth regime: wealth just above the Kinderzuschlag exemption reduces the benefit without removing it;
+        # the priority checks must then work with the reduced amount (the exemption is read from the first run)
+        if "kinderzuschl_vermög_freib_bg" in T.columns and (T["_kinderzuschl_vor_vermög_check_m_bg"] > 0).any():
+            ex = float(T.loc[T["p_id"] == base["p_id"].iloc[who], "kinderzuschl_vermög_freib_bg"].iloc[0])
+            kiz_rows = T["_kinderzuschl_vor_vermög_check_m_bg"].to_numpy() > 0
+            w_kiz = sorted(set(df.loc[kiz_rows & (df["p_id"].to_numpy() % n_p == base["p_id"].iloc[who]), "bruttolohn_m"].tolist()))
+            if w_kiz and np.isfinite(ex):
+                lo_w, hi_w = min(w_kiz), max(w_kiz)
+                for delta in (50.0, 150.0, 300.0, 400.0):
+                    b2 = base.copy()
+                    b2["vermögen_bedürft"] = 0.0
+                    b2.iloc[who, b2.columns.get_loc("vermögen_bedürft")] = ex + delta
+                    dfw = popgen.replicate_with_wages(b2, np.arange(lo_w, hi_w + 1, 25.0), who=who)
+                    Tw, *_ = env.trace(dfw, params, functions)
+                    res["runs"] += 1
+                    res["wealth_regime_runs"] = res.get("wealth_regime_runs", 0) + 1
+                    monitor(Tw, res, f"wealth = exemption + {delta}, sweep {item['template']} at {item['date']}")
+                    red = (Tw["_kinderzuschl_nach_vermög_check_m_bg"] < Tw["_kinderzuschl_vor_vermög_check_m_bg"]) & (Tw["_kinderzuschl_nach_vermög_check_m_bg"] > 0)
+                    res["persons_with_wealth_reduced_kinderzuschlag"] = res.get("persons_with_wealth_reduced_kinderzuschlag", 0) + int(red.sum())
         res["multi_bg_households"] = int((T.groupby("hh_id")["bg_id"].nunique() > 1).sum())
         res["sample"] = dict(date=item["date"], template=item["template"], swept_person=who,
                              regime_by_wage=[(float(w), int(r_)) for w, r_ in zip(wages[::12], rp[::12])])
@@ -184,6 +203,8 @@ def summarize(results, tier, seed):
         persons_checked=sum(r["persons"] for r in ok), recipients=rec,
         regime_changes_located=sum(r["regime_changes"] for r in ok),
         households_with_several_needs_units=sum(r["multi_bg_households"] for r in ok),
+        wealth_regime_runs=sum(r.get("wealth_regime_runs", 0) for r in ok),
+        persons_with_wealth_reduced_kinderzuschlag=sum(r.get("persons_with_wealth_reduced_kinderzuschlag", 0) for r in ok),
         regime_codes_seen=sorted({x for r in ok for x in r["regimes_seen"]}),
         dates=sorted({r["date"] for r in ok}),
         samples=[r["sample"] for r in ok[:3] if "sample" in r],
